@@ -49,6 +49,19 @@ def cases(ctx):
             body = ".db 1\nlab_t:\n" if taken else (".db 2, 2\nlab_e:\n" if has_else else "")
             twin = f"*={org:#08x}\nk := 3\nz := 0\n{body}end:\n.dl end\n"
             out.append({"kind": f"if:{cond}", "rom": "low", "src": src, "twin_src": twin, "spec": {"t": "twin", "labels": True}})
+    # a branch that DEFINES something (a macro, a constant): only the selected branch may take effect
+    for cond, taken in (("0", False), ("1", True), ("-1", True), ("nope", False), ("k", True), ("z", False)):
+        for has_else in (True, False):
+            for default in (True, False):
+                d = ".macro put(v) {\n.db 0x10 + v\n}\nc := 7\n" if default else ""
+                t_def = ".macro put(v) {\n.db 0x20 + v, 0x21\n}\nc := 8\n"
+                e_def = ".macro put(v) {\n.dw 0x3000 + v\n}\nc := 9\n"
+                head = f"*={org:#08x}\nk := 3\nz := 0\n{d}"
+                tail = "put(1)\n.db c\nend:\n.dl end\n"
+                src = head + f".if {cond} {{\n{t_def}}}" + (f" else {{\n{e_def}}}" if has_else else "") + "\n" + tail
+                twin = head + (t_def if taken else (e_def if has_else else "")) + tail
+                out.append({"kind": f"if-defines:{cond}:{int(has_else)}:{int(default)}", "rom": "low", "src": src,
+                            "twin_src": twin, "spec": {"t": "twin", "labels": True}})
     for lo, hi in ((0, 0), (0, 1), (0, 3), (2, 7), (5, 2), (-2, 2), (0, 40), (-3, -1)):
         src = f"*={org:#08x}\n.for i := {lo}, {hi} {{\nlab:\n.db i\n.dw lab\n}}\nend:\n.dl end\n"
         twin = f"*={org:#08x}\n" + "".join(f"{{\ni = {k}\nlab:\n.db i\n.dw lab\n}}\n" for k in range(lo, hi)) + "end:\n.dl end\n"
